@@ -1,9 +1,11 @@
 """Typestate analysis of the byte pump `marshal()` (shared by C05, C10, C13, C06, C08).
 
-Abstract state (B, D, E):
-  B  look-ahead byte:  INIT (nothing pulled yet) | FRESH (pulled, not yet pushed) | SENT (pushed)
+Abstract state (B, D, E, W):
+  B  look-ahead byte:  INIT (nothing pulled yet) | FRESH (pulled, not yet pushed) | SENT (pushed) | EMPTY (the variable holds
+     the None that `next(it, None)` gave for an exhausted source - only in pumps that use the variable itself as the marker)
   D  depleted flag / source iterator exhausted (correlated: D is set exactly where next() raised)
   E  last thing the processor yielded: NONE (= asks for a byte) | EVENT
+  W  the pump itself has yielded a warning (it is about to return in warn mode)
 The analysis runs to a fixpoint over the pump's CFG (exception edges included); nothing is executed.
 """
 from __future__ import annotations
@@ -82,14 +84,22 @@ def analyse(project, roles: MarshalRoles = None):
 
     def refine_test(test, st, outcome):
         """-> refined state or None if this outcome is infeasible in st."""
-        B, D, E = st
+        B, D, E, W = st
         t = test
         neg = False
         while isinstance(t, ast.UnaryOp) and isinstance(t.op, ast.Not):
             neg = not neg
             t = t.operand
-        if isinstance(t, ast.Name) and t.id == dep:
+        if isinstance(t, ast.Constant):
+            return st if (bool(t.value) != neg) == outcome else None
+        if dep is not None and isinstance(t, ast.Name) and t.id == dep:
             val = D != neg
+            return st if val == outcome else None
+        if isinstance(t, ast.Compare) and len(t.ops) == 1 and isinstance(t.left, ast.Name) and t.left.id == byte \
+                and isinstance(t.ops[0], (ast.Is, ast.IsNot)) and isinstance(t.comparators[0], ast.Constant) \
+                and t.comparators[0].value is None:
+            isnone = isinstance(t.ops[0], ast.Is)
+            val = ((B in ("INIT", "EMPTY")) == isnone) != neg
             return st if val == outcome else None
         if isinstance(t, ast.Compare) and len(t.ops) == 1 and isinstance(t.left, ast.Name) and t.left.id == ev \
                 and isinstance(t.comparators[0], ast.Constant) and t.comparators[0].value is None:
@@ -109,7 +119,7 @@ def analyse(project, roles: MarshalRoles = None):
         return st
 
     def transfer(node: Node, st):
-        B, D, E = st
+        B, D, E, W = st
         out = []
         if node.kind in ("entry", "handler"):
             if node.kind == "handler":
@@ -137,32 +147,39 @@ def analyse(project, roles: MarshalRoles = None):
             nb = "SENT" if (kind == "byte" and B == "FRESH") else B
             for e2 in ("NONE", "EVENT"):
                 for s in nxt:
-                    out.append((s, (nb, D, e2)))
+                    out.append((s, (nb, D, e2, W)))
             tgt = catcher(cfg, node, "StopIteration", hier.is_subclass)
             if tgt is cfg.raise_exit:
                 F.stopiter_escape.append((node, st, kind))
-            out.append((tgt, (nb, D, E)))
-            out.append(exc_edge(node, "ConstraintViolatedError", (nb, D, E)))
+            out.append((tgt, (nb, D, E, W)))
+            out.append(exc_edge(node, "ConstraintViolatedError", (nb, D, E, W)))
             return out
         if isinstance(a, ast.Assign) and isinstance(a.value, ast.Call) and call_name(a.value) == "next" \
                 and a.value.args and norm(a.value.args[0]) == it:
             F.next.append((node, st))
             if not D:
                 for s in nxt:
-                    out.append((s, ("FRESH", D, E)))
+                    out.append((s, ("FRESH", D, E, W)))
+            if len(a.value.args) == 2:
+                # next(it, None): an exhausted source gives the default - the variable itself marks depletion
+                if B == "FRESH":
+                    F.cleared.append((node, st))
+                for s in nxt:
+                    out.append((s, ("EMPTY", True, E, W)))
+                return out
             out.append(exc_edge(node, "StopIteration", st))
             return out
         if isinstance(a, ast.Assign) and len(a.targets) == 1 and isinstance(a.targets[0], ast.Name):
             tname = a.targets[0].id
-            if tname == dep:
+            if dep is not None and tname == dep:
                 if not (isinstance(a.value, ast.Constant) and isinstance(a.value.value, bool)):
                     raise AnalysisError(f"pump: depleted flag assigned a non-constant at line {a.lineno}")
                 # the flag may only become True where next() has just raised (correlation)
                 F.asserts.append((node, st, "flag", a.value.value))
-                return [(s, (B, a.value.value, E)) for s in nxt]
+                return [(s, (B, a.value.value, E, W)) for s in nxt]
             if tname == ev:
                 if isinstance(a.value, ast.Constant) and a.value.value is None:
-                    return [(s, (B, D, "NONE")) for s in nxt]
+                    return [(s, (B, D, "NONE", W)) for s in nxt]
                 raise AnalysisError(f"pump: event variable assigned from `{norm(a.value)}` at line {a.lineno}")
             if tname == byte:
                 if isinstance(a.value, ast.Constant) and a.value.value is None and B == "INIT":
@@ -171,7 +188,7 @@ def analyse(project, roles: MarshalRoles = None):
                     # the variable stops holding a byte: harmless after the byte was consumed (SENT), a dropped byte
                     # while it is still unconsumed (FRESH) - recorded for C10-T1 / C13
                     F.cleared.append((node, st))
-                    return [(s, ("INIT", D, E)) for s in nxt]
+                    return [(s, ("INIT", D, E, W)) for s in nxt]
                 raise AnalysisError(f"pump: look-ahead variable assigned from `{norm(a.value)}` at line {a.lineno}")
             if tname in (proc, it):
                 if B != "INIT":
@@ -188,6 +205,8 @@ def analyse(project, roles: MarshalRoles = None):
             v = a.value.value
             what = "event" if isinstance(v, ast.Name) and v.id == ev else norm(v) if v is not None else "None"
             F.yields.append((node, st, what))
+            if what != "event":
+                return [(s, (B, D, E, True)) for s in nxt]
             return [(s, st) for s in nxt]
         if isinstance(a, ast.Return):
             F.returns.append((node, st))
@@ -207,7 +226,7 @@ def analyse(project, roles: MarshalRoles = None):
                     F.attach.append((node, st, kw, call_name(c)))
         return [(s, st) for s in nxt]
 
-    F.states = run_typestate(cfg, ("INIT", False, "NONE"), transfer)
+    F.states = run_typestate(cfg, ("INIT", False, "NONE", False), transfer)
     F.loop_exit = []
     return F
 
